@@ -344,7 +344,25 @@ theorem cexpr_fromCtx {env : Env} {file : AFile} {G : List String} {Γ : Ctx} {K
       simp only [compileCExpr, varsUsed, noBlockExpr]; exact ⟨h1, h2⟩
   | toDyn tr forTy e ty =>
     simp only [fragC, toDynOK, Bool.and_eq_true] at h
-    obtain ⟨h1, h2⟩ := imm_fromCtx env h.1.1.1 (calleesC (Γ.map (·.1)) (.toDyn tr forTy e ty))
+    obtain ⟨h1', h2'⟩ := imm_fromCtx env h.1.1.1 (calleesC (Γ.map (·.1)) (.toDyn tr forTy e ty))
+    -- the data field: the operand, under a conversion when it is a numeric literal
+    have hd : (∀ y, y ∈ varsUsed (dynDataExpr env e) → FromCtx file G Γ (calleesC (Γ.map (·.1)) (.toDyn tr forTy e ty)) y) ∧
+        noBlockExpr (dynDataExpr env e) = true := by
+      cases e with
+      | var x t => exact ⟨h1', h2'⟩
+      | tag idx t => exact ⟨h1', h2'⟩
+      | prim p t =>
+        simp only [dynDataExpr]
+        cases hc : convName t with
+        | none => exact ⟨h1', h2'⟩
+        | some n =>
+          simp only [varsUsed, varsUsedList, noBlockExpr, noBlockList, mem_uni, List.mem_singleton, List.not_mem_nil, or_false,
+            Bool.and_true, Bool.true_and, h2']
+          refine ⟨fun y hy => ?_, trivial⟩
+          rcases hy with rfl | hy
+          · exact Or.inr (Or.inl (by simp [calleesC, dynDataCallee, hc]))
+          · exact h1' y hy
+    obtain ⟨h1, h2⟩ := hd
     simp only [compileCExpr, varsUsed, varsUsedList, Goml.Dce.varsUsedFields, noBlockExpr, noBlockList, Goml.Dce.noBlockFields,
       mem_uni, Bool.and_eq_true, List.mem_singleton, List.not_mem_nil, or_false, Bool.and_true]
     refine ⟨fun y hy => ?_, by first | exact h2 | exact ⟨h2, trivial⟩ | simp [h2]⟩
